@@ -190,6 +190,10 @@ type StructSpec struct {
 	LeanT  string // the type expression used for values, e.g. "Ctx γ" ("" = Lean)
 	Derive string // deriving clause ("" = DecidableEq, Repr, Inhabited)
 	OptIn  bool   // the Go type is this struct only in functions that list it in UseStructs (elsewhere it is opaque)
+	// Setters: emit `def <Lean>.set_<field>`; functions with FnSpec.Setters use them instead of `{ c with f := v }`
+	// (a structure update elaborates to the constructor applied to every projection of `c`, so unfolding a
+	// definition copies `c` once per field; the setter keeps one copy)
+	Setters bool
 	Fields []FieldSpec
 	Extra  []string // extra Lean fields "name : Type := default"
 }
@@ -233,6 +237,12 @@ type FnSpec struct {
 	DeferRecover bool
 	PnIndex      int
 	NoPureIf     bool // keep the plain `if` emission for this function
+	// Hoist: every tuple-valued `if` block becomes an auxiliary definition `<Lean>.blkN` (arguments: the binders of
+	// the function, HoistVars, the visible mutable locals), so that a proof can treat the blocks one at a time.
+	// HoistVars: "name : type" of the variables that the prologue declares and the blocks may read.
+	Hoist     bool
+	HoistVars []string
+	Setters   bool // field assignments go through the `set_<field>` functions of structures that have them
 	UseStructs   []string // opt-in struct types (Go names) this function works on
 	// Inner: the function only returns a closure (possibly wrapped in a conversion such as http.HandlerFunc(...));
 	// what is translated is the closure, with the parameters of the outer function in front of its own
@@ -599,10 +609,29 @@ func (t *tr) lvalStruct(e ast.Expr) (string, func(string) string, bool) {
 			return "", nil, false
 		}
 		return base + "." + f.Lean, func(v string) string {
-			return set(fmt.Sprintf("{ %s with %s := %s }", base, f.Lean, v))
+			return set(t.update(bt.Lean, base, f.Lean, v))
 		}, true
 	}
 	return "", nil, false
+}
+
+// update: the Lean term for `base` with field f set to v
+func (t *tr) update(structT string, base, f, v string) string {
+	if t.spec.Setters {
+		for i := range t.g.structs {
+			if t.g.structs[i].typeExpr() == structT && t.g.structs[i].Setters {
+				return fmt.Sprintf("(%s.set_%s %s %s)", t.g.structs[i].Lean, f, base, paren(v))
+			}
+		}
+	}
+	return fmt.Sprintf("{ %s with %s := %s }", base, f, v)
+}
+
+func paren(v string) string {
+	if strings.ContainsAny(v, " ") && !(strings.HasPrefix(v, "(") && strings.HasSuffix(v, ")")) {
+		return "(" + v + ")"
+	}
+	return v
 }
 
 func calleeText(p *pkgInfo, fun ast.Expr, recvName string) string {
@@ -1311,7 +1340,7 @@ func (t *tr) assignTo(lhs ast.Expr, val string) {
 			}
 			t.fail(l, "assignment to a field that is not modelled: %s", t.p.text(l))
 		}
-		t.emit("%s", set(fmt.Sprintf("{ %s with %s := %s }", base, f.Lean, val)))
+		t.emit("%s", set(t.update(bt.Lean, base, f.Lean, val)))
 		return
 	}
 	t.fail(lhs, "assignment target %s", t.p.text(lhs))
@@ -1678,7 +1707,37 @@ func (t *tr) emitPureIf(x *ast.IfStmt, vars []string) {
 		tys = append(tys, t.ltypes[v])
 	}
 	n := t.fresh()
-	t.emit("let %s : %s := Id.run do", n, strings.Join(tys, " × "))
+	hoistName, hoistArgs, hoistBinders := "", []string{}, []string{}
+	var saveLines []string
+	saveInd := 0
+	if t.spec.Hoist {
+		hoistName = fmt.Sprintf("%s.blk%s", t.spec.Lean, n[1:])
+		hoistArgs = append(hoistArgs, t.bnames...)
+		for _, hv := range t.spec.HoistVars {
+			nm := strings.TrimSpace(strings.SplitN(hv, ":", 2)[0])
+			hoistArgs = append(hoistArgs, nm)
+			hoistBinders = append(hoistBinders, "("+hv+")")
+		}
+		isBinder := map[string]bool{}
+		for _, b := range t.bnames {
+			isBinder[b] = true
+		}
+		for _, v := range t.visibleMuts() {
+			if isBinder[v] { // a parameter that is also assigned: the binder position carries the current value
+				continue
+			}
+			if t.ltypes[v] == "" {
+				t.fail(x, "hoisted block with a live variable %s of unknown type", v)
+			}
+			hoistArgs = append(hoistArgs, v)
+			hoistBinders = append(hoistBinders, fmt.Sprintf("(%s : %s)", v, t.ltypes[v]))
+		}
+		saveLines, saveInd = t.lines, t.ind
+		t.lines, t.ind = nil, 0
+		t.emit("def %s %s %s : %s := Id.run do", hoistName, t.binders, strings.Join(hoistBinders, " "), strings.Join(tys, " × "))
+	} else {
+		t.emit("let %s : %s := Id.run do", n, strings.Join(tys, " × "))
+	}
 	t.ind++
 	for _, v := range vars {
 		t.emit("let mut %s := %s", v, v)
@@ -1708,6 +1767,13 @@ func (t *tr) emitPureIf(x *ast.IfStmt, vars []string) {
 	}
 	t.emit("return %s", tupleOf(vars))
 	t.ind--
+	if t.spec.Hoist {
+		aux := fmt.Sprintf("/-- block %s of `%s` (`if %s …`) -/\n%s\n", n[1:], t.spec.Lean,
+			strings.ReplaceAll(t.p.text(x.Cond), "\n", " "), strings.Join(t.lines, "\n"))
+		t.aux = append(t.aux, aux)
+		t.lines, t.ind = saveLines, saveInd
+		t.emit("let %s := %s %s", n, hoistName, strings.Join(hoistArgs, " "))
+	}
 	// a pattern assignment (a `match` in the elaborated term) rather than projections: the block is not copied
 	// into every use of the variables when a proof unfolds the definition
 	t.emit("%s := %s", tupleOf(vars), n)
@@ -2222,6 +2288,12 @@ func (g *gen) emitStructs() {
 		fmt.Fprintf(&g.out, "  deriving %s\n\n", der)
 		if ss.Params != "" {
 			fmt.Fprintf(&g.out, "variable {%s}\n\n", strings.Trim(ss.Params, "()"))
+		}
+		if ss.Setters {
+			for _, f := range ss.Fields {
+				fmt.Fprintf(&g.out, "def %s.set_%s (c : %s) (v : %s) : %s := { c with %s := v }\n", ss.Lean, f.Lean, ss.typeExpr(), f.T.Lean, ss.typeExpr(), f.Lean)
+			}
+			fmt.Fprintln(&g.out)
 		}
 	}
 }
